@@ -513,7 +513,7 @@ class StateMachine(object):  # pylint: disable=too-many-public-methods
     def aa_4(self):
         """Issue A-P-ABORT indication primitive."""
         # TODO look into this action
-        self.primitive = pdu.AAbortPDU(source=0, reason_diag=0)
+        self.primitive = pdu.AAbortPDU(source=2, reason_diag=0)
         self.to_service_user.put(self.primitive)
         return States.STA_1
 
